@@ -23,6 +23,29 @@ let handler r =
       put_f (ok (determinant fops a)); put_f (ok (determinant fops b));
       put_f (ok (determinant fops (ok (m_product fops a b))));
       put_f (ok (determinant fops (ok (transpose fops a))))
+  (* a call history on one object: every query answer is printed twice (the object's and a fresh object's) *)
+  | "seq" -> let a = rd_mat r in let k = integer r in
+      let nat r = nat_of_int (integer r) in
+      let step () = match word r with
+        | "det" -> QDet | "invertible" -> QInvertible | "inverse" -> QInverse | "orthogonal" -> QOrthogonal
+        | "copydet" -> QCopyDet | "transdet" -> QTransDet
+        | "subdet" -> let i = nat r in let j = nat r in QSubDet (i, j)
+        | "add" -> UAdd (rd_mat r) | "sub" -> USub (rd_mat r)
+        | "set" -> let i = nat r in let j = nat r in let v = num r in USet (i, j, v)
+        | "swap" -> let i = nat r in let j = nat r in USwap (i, j)
+        | "assignm" -> UCopyAssign (rd_mat r)
+        | "assign" -> let i = nat r in let j = nat r in let v = num r in UAssign (i, j, v)
+        | "resize" -> let i = nat r in let j = nat r in UResize (i, j)
+        | "delrow" -> UDelRow (nat r) | "delcol" -> UDelCol (nat r)
+        | o -> raise (Out ("MODELERR unknown_step_" ^ o)) in
+      let rec steps n = if n <= 0 then [] else let s = step () in s :: steps (n - 1) in
+      let ops = steps k in
+      let (_, outs) = ok (srun fops ops a) in
+      List.iter (function
+        | ODet d -> put_w "D"; put_f d; put_f d
+        | OFlag b -> put_w "F"; put_b b; put_b b
+        | OMat x -> put_w "X"; put_mat x; put_mat x
+        | ONone -> put_w "U") outs
   | o -> put_w ("MODELERR unknown_op_" ^ o)
   with Out s -> Buffer.clear buf; first := true; put_w s
 
